@@ -173,6 +173,19 @@ SHAPES = [
     (H + 'HttpHeaderFieldValueContentSecurityPolicy', 'many-sources', lambda n: b"default-src 'self' " + b'a.example ' * n),
     (H + 'HttpHeaderFieldValueContentSecurityPolicy', 'many-directives', lambda n: b"img-src 'self'; " * n + b"default-src 'none'"),
     (H + 'HttpHeaderFieldValueContentSecurityPolicy', 'many-hash-sources', lambda n: b'script-src ' + b"'sha256-YWJj' " * n),
+    # the same lists delimited only by the *other* member of the separator set (HTAB, bare LF, '/')
+    (H + 'HttpHeaderFieldValueContentSecurityPolicy', 'many-sources-htab', lambda n: b"default-src\t'self'" + b'\ta.example' * n),
+    (H + 'HttpHeaderFieldValueContentSecurityPolicy', 'many-hash-sources-htab', lambda n: b'script-src' + b"\t'sha256-YWJj'" * n),
+    (H + 'HttpHeaderFieldValueContentSecurityPolicy', 'many-sandbox-tokens-htab', lambda n: b'sandbox' + b'\tallow-forms' * n),
+    (H + 'HttpHeaderFieldValueContentSecurityPolicy', 'many-report-uris-htab', lambda n: b'report-uri' + b'\t/a' * n),
+    (H + 'HttpHeaderFieldValueContentSecurityPolicy', 'many-directives-htab', lambda n: b"img-src\t'self';\t" * n + b"default-src\t'none'"),
+    (H + 'HttpHeaderFields', 'many-headers-bare-lf', lambda n: b'X-a: b\n' * n + b'\r\n'),
+    (H + 'HttpHeaderFields', 'many-known-headers-bare-lf', lambda n: b'Server: b\n' * n + b'\r\n'),
+    (H + 'HttpHeaderFieldValueSTS', 'many-unknown-directives-htab', lambda n: b'max-age=1' + b';\ta=b' * n),
+    (H + 'HttpHeaderFieldValueCacheControlResponse', 'many-unknown-directives-htab', lambda n: b'no-cache' + b',\ta=b' * n),
+    (H + 'HttpHeaderFieldValueSetCookie', 'many-attributes-htab', lambda n: b'a=b' + b';\tx=y' * n),
+    (D + 'txt:DnsRecordTxtValueSpf', 'many-slashes', lambda n: b'v=spf1 a' + b'/1' * n + b' -all'),
+    (D + 'txt:DnsRecordTxtValueSpf', 'many-mechanisms-one-slash-each', lambda n: b'v=spf1 ' + b'a/24 ' * n + b'-all'),
     (H + 'HttpHeaderFieldValueContentSecurityPolicy', 'space-run', lambda n: b'default-src' + b' ' * n + b"'self'"),
     (H + 'HttpHeaderFieldValueContentSecurityPolicy', 'semicolon-run', lambda n: b"default-src 'self'" + b';' * n),
     (H + 'HttpHeaderFieldValueContentSecurityPolicy', 'many-sandbox-tokens', lambda n: b'sandbox ' + b'allow-forms ' * n),
